@@ -3,24 +3,31 @@
    C17/Proofs.v; one entry is marshalled by C01's marshaller, whose theorem
    marshal_conforms is reused; dateTime texts are C06's, datetime_roundtrip).
 
-   Full statement (kept visible): for EVERY schema, declared header parts
-   (any number), soapheaders value and WS-Security object, the Header holds the
-   Security element plus exactly the reference entries  ref_headers.  This is
-   FALSE of the unchanged code in four reproduced ways, each witnessed below:
-   a list-valued entry raises AttributeError (list_header_refuted); a
-   ready-made element after more plain values than declared parts is dropped
-   (surplus_then_element_refuted); a positional None sends an empty element
-   (positional_none_refuted) or, for a part declared with type=, raises
-   AttributeError (positional_none_type_part_refuted).  It is proved under the
-   boolean guard guard_C17, which excludes exactly those inputs and values
-   that do not fit their schema. *)
+   Statement: for EVERY schema, declared header parts (any number), soapheaders
+   value and WS-Security object, the Header holds the Security element plus
+   exactly the reference entries  ref_headers.  The boolean guard guard_C17
+   only asks that the values fit their schema (None, the empty list and lists
+   of fitting items included), that the items of a list-valued entry are not
+   lists themselves (mkheader maps itself over the items, headercontent's add
+   looks one level deep) and that the ready-made elements exist.
+
+   History: before the repairs 02a92ff, dfdc017 and c4ebdf6 the statement was
+   false in four reproduced ways, and the guard had to exclude them: a
+   list-valued entry raised AttributeError; a ready-made element after more
+   plain values than declared parts was dropped; a positional None sent an
+   empty element or, for a part declared with type=, raised AttributeError.
+   The old function is kept (headercontent_q, one switch per defect); the
+   *_regression theorems below show, on the witness of each former defect, what
+   the old function did and what the current one does. *)
 From SV Require Import Lib.Base Fam.Schema C01.Marshal C01.Guard C01.MarshalProofs
   C06.DateTime C17.Headers C17.Proofs.
 
 (* 1. what headercontent returns: the Security element (if any) and then
-      exactly the configured entries — marshalled per their schema, declared
-      parts without a value omitted, ready-made elements verbatim and in order —
-      for any number of declared parts and any soapheaders length *)
+      exactly the configured entries — marshalled per their schema, one element
+      per item for a list-valued entry, declared parts without a value (absent,
+      or None in either form) omitted, ready-made elements verbatim and in
+      order (also after surplus plain values, which are dropped) — for any
+      number of declared parts and any soapheaders length *)
 Theorem headers_as_configured : forall S xstq (st : store) pts wsse sh,
   guard_C17 S (length st) pts sh = true ->
   exists entries,
@@ -40,12 +47,50 @@ Theorem sent_as_configured : forall g m st sec stamps,
 Proof. exact sent_as_configured_l. Qed.
 Print Assumptions sent_as_configured.
 
-(* each entry is named and qualified by its own declaration *)
-Theorem entries_named_and_qualified_by_their_declaration : forall S xstq d v n,
-  entry_ok S d v = true -> mkheader_setprefix S xstq d v = HOk n ->
-  xname n = e_name d /\ xnsid n = elem_ns d.
+(* each element added for an entry (every item of a list-valued one) is named
+   and qualified by the part's own declaration *)
+Theorem entries_named_and_qualified_by_their_declaration : forall S xstq d v ns,
+  entry_ok S d v = true -> add_entry S xstq d v = HOk ns ->
+  Forall (fun n => xname n = e_name d /\ xnsid n = elem_ns d) ns.
 Proof. exact entry_named_l. Qed.
 Print Assumptions entries_named_and_qualified_by_their_declaration.
+
+(* 1a. a list-valued entry (positional or dict value) adds, in order, what
+       each of its items adds on its own, which is what the reference
+       prescribes for that item ... *)
+Theorem list_entry_one_element_per_item : forall S xstq d l,
+  entry_ok S d (VList l) = true ->
+  exists per_item,
+    Forall2 (fun x ns => ref_elem S xstq d false x = Some ns /\ add_entry S xstq d x = HOk ns) l per_item /\
+    add_entry S xstq d (VList l) = HOk (concat per_item) /\
+    ref_elem S xstq d false (VList l) = Some (concat per_item).
+Proof. exact list_entry_per_item_l. Qed.
+Print Assumptions list_entry_one_element_per_item.
+
+(* ... and a plain item (text or object) adds exactly one element *)
+Theorem plain_value_one_element : forall S xstq d v,
+  conforming S d v = true -> is_list v = false -> is_none v = false ->
+  exists n, ref_elem S xstq d false v = Some [n] /\ add_entry S xstq d v = HOk [n] /\
+            xname n = e_name d /\ xnsid n = elem_ns d.
+Proof. exact plain_value_one_element_l. Qed.
+Print Assumptions plain_value_one_element.
+
+(* 1b. a positional None uses up its declared part and sends nothing for it:
+       the rest is matched against the remaining parts (no guard) *)
+Theorem positional_none_leaves_part_out : forall S xstq st d pts wsse hs,
+  headercontent S xstq st (d :: pts) wsse (SHSeq (HVal VNone :: hs)) =
+  headercontent S xstq st pts wsse (SHSeq hs).
+Proof. exact positional_none_leaves_part_out_l. Qed.
+Print Assumptions positional_none_leaves_part_out.
+
+(* 1c. once the declared parts are used up, plain values add nothing and the
+       ready-made elements that follow are still copied, in order (no guard
+       on the values) *)
+Theorem surplus_values_skipped_elements_kept : forall S xstq st pts hs,
+  elems_in_store st hs = true ->
+  seq_loop S xstq st pts (length pts) hs = HOk (map RFresh (elems_of st hs)).
+Proof. exact surplus_values_skipped_elements_kept_l. Qed.
+Print Assumptions surplus_values_skipped_elements_kept.
 
 (* 2. the caller's header objects: whatever the configuration (no guard), the
       store of caller elements is the same after the call, content and parent *)
@@ -82,57 +127,81 @@ Theorem wsse_timestamps_lexical : forall s x stamps,
 Proof. exact wsse_timestamps_lexical_l. Qed.
 Print Assumptions wsse_timestamps_lexical.
 
-(* ---- the guard is needed: the unchanged code outside it ---- *)
+(* ---- regression witnesses: the four former defects ---- *)
+(* the old function with every switch off is the current one *)
+Theorem repaired_is_current : forall S xstq st pts wsse sh,
+  headercontent_q S xstq st repaired pts wsse sh = headercontent S xstq st pts wsse sh.
+Proof. exact repaired_is_current_l. Qed.
+Print Assumptions repaired_is_current.
+
 Local Open Scope N_scope.
 Definition ex_H : edecl := mkE 30 1 true TBuiltin false false false None.          (* a global element *)
 Definition ex_P : edecl := mkE 31 0 false TBuiltin true false false None.          (* a part declared with type= *)
 Definition ex_x : xnode := XN 9 50 [(0, 51, AText 52)] (Some 53) [].               (* a ready-made element *)
 
-(* (a) a list-valued entry: two elements are prescribed, AttributeError is raised *)
-Theorem list_header_refuted : exists S xstq st pts sh entries,
+(* (a) a list-valued entry: two elements are prescribed and sent; the old
+       function raised AttributeError *)
+Theorem list_header_regression : exists S xstq st pts sh entries,
   ref_headers S xstq (map ce_tree st) pts sh = Some entries /\ length entries = 2%nat /\
-  headercontent S xstq st pts None sh = HErr EAttr.
+  headercontent S xstq st pts None sh = HOk (map RFresh entries, []) /\
+  headercontent_q S xstq st (mkQ true false false false) pts None sh = HErr EAttr /\
+  headercontent_q S xstq st before_repairs pts None sh = HErr EAttr.
 Proof.
   exists [], true, [], [ex_H], (SHSeq [HVal (VList [VText 40; VText 41])]),
          [XN 1 30 [] (Some 40) []; XN 1 30 [] (Some 41) []].
   repeat split; reflexivity.
 Qed.
-Print Assumptions list_header_refuted.
+Print Assumptions list_header_regression.
 
-(* (b) a ready-made element after more plain values than declared parts is dropped *)
-Theorem surplus_then_element_refuted : exists S xstq st pts sh,
+(* (b) a ready-made element after more plain values than declared parts is
+       sent; the old function dropped it *)
+Theorem surplus_then_element_regression : exists S xstq st pts sh,
   ref_headers S xstq (map ce_tree st) pts sh = Some [XN 1 30 [] (Some 40) []; ex_x] /\
-  headercontent S xstq st pts None sh = HOk ([RFresh (XN 1 30 [] (Some 40) [])], []).
+  headercontent S xstq st pts None sh = HOk ([RFresh (XN 1 30 [] (Some 40) []); RFresh ex_x], []) /\
+  headercontent_q S xstq st (mkQ false false true false) pts None sh = HOk ([RFresh (XN 1 30 [] (Some 40) [])], []) /\
+  headercontent_q S xstq st before_repairs pts None sh = HOk ([RFresh (XN 1 30 [] (Some 40) [])], []).
 Proof.
   exists [], true, [mkCE ex_x None], [ex_H], (SHSeq [HVal (VText 40); HVal (VText 41); HElem 0]).
-  split; reflexivity.
+  repeat split; reflexivity.
 Qed.
-Print Assumptions surplus_then_element_refuted.
+Print Assumptions surplus_then_element_regression.
 
-(* (c) a positional None: the part is to be omitted, an empty element is sent *)
-Theorem positional_none_refuted : exists S xstq st pts sh,
+(* (c) a positional None: the part is omitted; the old function sent an empty element *)
+Theorem positional_none_regression : exists S xstq st pts sh,
   ref_headers S xstq (map ce_tree st) pts sh = Some [] /\
-  headercontent S xstq st pts None sh = HOk ([RFresh (XN 1 30 [] None [])], []).
+  headercontent S xstq st pts None sh = HOk ([], []) /\
+  headercontent_q S xstq st (mkQ false false false true) pts None sh = HOk ([RFresh (XN 1 30 [] None [])], []) /\
+  headercontent_q S xstq st before_repairs pts None sh = HOk ([RFresh (XN 1 30 [] None [])], []).
 Proof.
-  exists [], true, [], [ex_H], (SHSeq [HVal VNone]). split; reflexivity.
+  exists [], true, [], [ex_H], (SHSeq [HVal VNone]). repeat split; reflexivity.
 Qed.
-Print Assumptions positional_none_refuted.
+Print Assumptions positional_none_regression.
 
-(* (c') ... and for a part declared with type= the call fails *)
-Theorem positional_none_type_part_refuted : exists S xstq st pts sh,
+(* (c') ... and for a part declared with type= the old function failed (the
+        marshaller skips the value; both the None check of the positional loop
+        and the None check of add now stand in the way) *)
+Theorem positional_none_type_part_regression : exists S xstq st pts sh,
   ref_headers S xstq (map ce_tree st) pts sh = Some [] /\
-  headercontent S xstq st pts None sh = HErr EAttr.
+  headercontent S xstq st pts None sh = HOk ([], []) /\
+  headercontent_q S xstq st (mkQ false true false true) pts None sh = HErr EAttr /\
+  headercontent_q S xstq st before_repairs pts None sh = HErr EAttr /\
+  (* a skipped item of a list-valued entry is the other way to get there *)
+  headercontent S xstq st pts None (SHSeq [HVal (VList [VNone; VText 40])]) =
+    HOk ([RFresh (XN 0 31 [] (Some 40) [])], []) /\
+  headercontent_q S xstq st (mkQ false true false false) pts None (SHSeq [HVal (VList [VNone; VText 40])]) = HErr EAttr.
 Proof.
-  exists [], true, [], [ex_P], (SHSeq [HVal VNone]). split; reflexivity.
+  exists [], true, [], [ex_P], (SHSeq [HVal VNone]). repeat split; reflexivity.
 Qed.
-Print Assumptions positional_none_type_part_refuted.
+Print Assumptions positional_none_type_part_regression.
 
-(* the same four inputs are outside the guard *)
-Example refuted_inputs_outside_guard :
-  guard_C17 [] 0 [ex_H] (SHSeq [HVal (VList [VText 40; VText 41])]) = false /\
-  guard_C17 [] 1 [ex_H] (SHSeq [HVal (VText 40); HVal (VText 41); HElem 0]) = false /\
-  guard_C17 [] 0 [ex_H] (SHSeq [HVal VNone]) = false /\
-  guard_C17 [] 0 [ex_P] (SHSeq [HVal VNone]) = false.
+(* the same four inputs are inside the guard now; a list of lists is not *)
+Example regression_inputs_inside_guard :
+  guard_C17 [] 0 [ex_H] (SHSeq [HVal (VList [VText 40; VText 41])]) = true /\
+  guard_C17 [] 1 [ex_H] (SHSeq [HVal (VText 40); HVal (VText 41); HElem 0]) = true /\
+  guard_C17 [] 0 [ex_H] (SHSeq [HVal VNone]) = true /\
+  guard_C17 [] 0 [ex_P] (SHSeq [HVal VNone]) = true /\
+  guard_C17 [] 0 [ex_H] (SHSeq [HVal (VList [VList [VText 40]])]) = false /\
+  headercontent [] true [] [ex_H] None (SHSeq [HVal (VList [VList [VText 40]])]) = HErr EAttr.
 Proof. repeat split; reflexivity. Qed.
 
 (* ---- non-vacuity: a complex part in another namespace, a simple part, a
@@ -146,6 +215,10 @@ Definition ex_pts : list edecl := [ex_H; ex_H2; ex_P].
 Definition ex_store : store := [mkCE ex_x None; mkCE (XN 0 54 [] None [XN 9 55 [] (Some 56) []]) None].
 Definition ex_sh : soapheaders :=
   SHSeq [HElem 0; HVal (VText 40); HElem 1; HVal (VObj None [(20, false, VText 41)]); HVal (VText 42); HElem 0].
+(* ... and a None, a list-valued entry, surplus values before a ready-made element *)
+Definition ex_sh2 : soapheaders :=
+  SHSeq [HVal VNone; HVal (VList [VObj None [(20, false, VText 41)]; VObj None []]); HVal (VList []);
+         HVal (VText 43); HElem 1; HVal VNone; HElem 0].
 Definition ex_dt : dtv := DT (mkCivil 2020 1 2) (mkTod 3 4 5 678) (TzFixed 330).
 Definition ex_sec : security :=
   mkSec true [TUser (mkUT (Some 60) (Some 61) None (Some 62) true (Some ex_dt));
@@ -153,8 +226,15 @@ Definition ex_sec : security :=
 Definition ex_cfg : config := mkCfg ex_schema true ex_pts (Some ex_sec) ex_sh.
 
 Example guard_nonvacuous :
-  guard_C17 ex_schema (length ex_store) ex_pts ex_sh = true /\ sec_valid ex_sec = true.
-Proof. split; reflexivity. Qed.
+  guard_C17 ex_schema (length ex_store) ex_pts ex_sh = true /\ sec_valid ex_sec = true /\
+  guard_C17 ex_schema (length ex_store) ex_pts ex_sh2 = true.
+Proof. repeat split; reflexivity. Qed.
+
+Example send2_nonvacuous :
+  send (mkCfg ex_schema true ex_pts None ex_sh2) 3 ex_store =
+    (HOk ([XN 2 32 [] None [XN 1 20 [] (Some 41) []]; XN 2 32 [] None [];
+           XN 0 54 [] None [XN 9 55 [] (Some 56) []]; ex_x], []), ex_store).
+Proof. reflexivity. Qed.
 
 Example send_nonvacuous :
   exists sec_node stamps,
